@@ -2,6 +2,9 @@
 
 use crate::engine::Property;
 
+pub mod c01;
+pub mod c03;
+pub mod c04;
 pub mod c05;
 pub mod c07;
 pub mod c08;
@@ -12,13 +15,17 @@ pub mod c12;
 pub mod c13;
 pub mod c14;
 pub mod c15;
+pub mod c16;
 
 pub fn ids() -> Vec<&'static str> {
-    vec!["C05", "C07", "C08", "C09", "C10", "C11", "C12", "C13", "C14", "C15"]
+    vec!["C01", "C03", "C04", "C05", "C07", "C08", "C09", "C10", "C11", "C12", "C13", "C14", "C15", "C16"]
 }
 
 pub fn property(id: &str) -> Option<Property> {
     Some(match id {
+        "C01" => c01::property(),
+        "C03" => c03::property(),
+        "C04" => c04::property(),
         "C05" => c05::property(),
         "C07" => c07::property(),
         "C08" => c08::property(),
@@ -29,6 +36,7 @@ pub fn property(id: &str) -> Option<Property> {
         "C13" => c13::property(),
         "C14" => c14::property(),
         "C15" => c15::property(),
+        "C16" => c16::property(),
         _ => return None,
     })
 }
